@@ -1038,7 +1038,9 @@ Lemma hb_cell_shows t b :
 Proof.
   unfold hb_cell, px_colour.
   destruct (to_rgb t) as [[[tr tg] tb] ta]. destruct (to_rgb b) as [[[br bg] bb] ba].
-  destruct (ta <? transparent_enough); destruct (ba <? transparent_enough); cbn; auto.
+  cbv beta iota zeta.
+  destruct (ta <? transparent_enough); destruct (ba <? transparent_enough); cbn [andb];
+    repeat split; reflexivity.
 Qed.
 
 Lemma fb_cell_shows t b : fb_cell t b = (g_space, 0, avg_colour t b).
@@ -1153,6 +1155,15 @@ Proof.
   rewrite zget_map_zseq by lia. rewrite zget_map_zseq by lia. reflexivity.
 Qed.
 
+Theorem scaled_pixels_from_source src nw nh x y :
+  0 < iw src -> 0 < ih src -> 0 <= x < nw -> 0 <= y < nh ->
+  img_at (nn_scale src nw nh) x y = to8 (img_at src (nn_src nw (iw src) x) (nn_src nh (ih src) y)) /\
+  0 <= nn_src nw (iw src) x < iw src /\ 0 <= nn_src nh (ih src) y < ih src.
+Proof.
+  intros Hw Hh Hx Hy.
+  split; [apply img_at_nn_scale; assumption|]. split; apply nn_src_range; lia.
+Qed.
+
 (* ---------------- Draw: the SetCell calls cover exactly the cell rectangle *)
 
 Lemma draw_from_In width i cells x y c :
@@ -1191,4 +1202,42 @@ Proof.
   unfold sixel_draw. destruct ((winw <? sw) || (winh <? sh)) eqn:E; [intros []|].
   intros H. apply in_flat_map in H. destruct H as [y' [Iy H]]. apply in_map_iff in H.
   destruct H as [x' [Ex Ix]]. injection Ex as <- <-. apply In_zseq in Iy, Ix. lia.
+Qed.
+
+(* ================================================================== rn is binary64 round-to-nearest-even *)
+
+(* rn p q = m * 2^e with a 53-bit significand m (2^52 <= m <= 2^53, the upper end being the
+   carry into the next binade), m the integer nearest to (p/q)/2^e, ties to the even one *)
+Theorem rn_nearest_even p q :
+  0 < p -> 0 < q ->
+  exists m e,
+    fst (rn p q) = m * 2 ^ Z.max e 0 /\ snd (rn p q) = 2 ^ Z.max (- e) 0 /\
+    2 ^ 52 <= m <= 2 ^ 53 /\
+    let P := scaleP p e in let Q := scaleQ q e in
+    2 ^ 52 * Q <= P < 2 ^ 53 * Q /\
+    - Q <= 2 * (m * Q - P) <= Q /\
+    (Z.abs (2 * (m * Q - P)) = Q -> Z.even m = true).
+Proof.
+  intros Hp Hq. unfold rn.
+  destruct (p =? 0) eqn:E0; [apply Z.eqb_eq in E0; lia|].
+  pose proof (rn_exp_normal p q Hp Hq) as [N1 N2].
+  set (e := rn_exp p q) in *.
+  pose proof (scaleP_pos p e Hp) as PP. pose proof (scaleQ_pos q e Hq) as QQ.
+  pose proof (round_half_even_spec (scaleP p e) (scaleQ q e) ltac:(lia) QQ) as [Hm R]. cbv zeta in Hm, R.
+  exists (round_half_even (scaleP p e) (scaleQ q e)), e. cbn [fst snd].
+  split; [reflexivity|]. split; [reflexivity|].
+  set (P := scaleP p e) in *. set (Q := scaleQ q e) in *.
+  set (m := round_half_even P Q) in *.
+  change (2 ^ 52) with 4503599627370496 in *. change (2 ^ 53) with 9007199254740992 in *.
+  split; [nia|]. cbv zeta. split; [lia|]. split; [exact R|].
+  intros T. unfold m, round_half_even.
+  pose proof (Z.div_mod P Q ltac:(lia)) as D. pose proof (Z.mod_pos_bound P Q QQ) as M.
+  unfold m, round_half_even in T.
+  destruct (2 * (P mod Q) <? Q) eqn:E1.
+  { apply Z.ltb_lt in E1. exfalso. nia. }
+  apply Z.ltb_ge in E1.
+  destruct (Q <? 2 * (P mod Q)) eqn:E2.
+  { apply Z.ltb_lt in E2. exfalso. nia. }
+  destruct (Z.even (P / Q)) eqn:E3; [exact E3|].
+  rewrite Z.even_add, E3. reflexivity.
 Qed.
